@@ -1,5 +1,5 @@
 """Registry: property id -> rule set, level and explanations."""
-from . import p_symbols, p_rs, p_charset, p_modes, p_macro, p_plan
+from . import p_symbols, p_rs, p_charset, p_modes, p_macro, p_plan, p_codec
 
 PROPS = {}
 
@@ -145,6 +145,37 @@ PROPS["C19"] = {
                    "scans inside AsciiPlan::step / unbeatable_strike.",
     "assumptions": ["default cargo features"],
     "technique": "loop-structure and must-pass rules over THIR/MIR, pigeonhole table argument",
+}
+
+PROPS["C04"] = {
+    "level": "other",
+    "rules": [p_codec.tab_dec, p_codec.dec_thresh, p_codec.dec_mode, p_codec.tab_cw],
+    "explanation": "Clause-level claim. Decided: the decoder's per-codeword decision tables - ASCII (256 codewords x upper-shift state), "
+                   "C40 and Text (4 shift sets x 256 values x upper-shift state, with the table constants decode_parts passes for each "
+                   "mode), X12 values, EDIFACT six-bit values, the 16-bit pair unpacking - equal ISO/IEC 16022 Table 2 / Annex C / 5.2.7 / "
+                   "5.2.8 transcribed independently; the termination forms (EDIFACT hands <= 2 trailing codewords to ASCII, C40/Text/X12 "
+                   "decode pairs while > 1 codeword remains and consume a final single 254) hold as integer predicates; decode_parts "
+                   "dispatches all six modes without wildcard to the decoder and tables of that mode and every non-ASCII decoder hands "
+                   "control back to ASCII. NOT decided: that the state machines compose correctly for every legal script (Base256 length "
+                   "arithmetic, pad checking and the EDIFACT bit unpacking loop are loops over run-time positions).",
+    "assumptions": ["default cargo features"],
+    "technique": "decision-table extraction from THIR (finite-domain folding of loop bodies) against transcribed ISO tables",
+}
+
+PROPS["C02"] = {
+    "level": "other",
+    "rules": [p_codec.tab_cw, p_codec.tab_sets],
+    "explanation": "(under construction - PROV-SYM and PAD-PATH are added below)",
+    "assumptions": ["default cargo features"],
+    "technique": "decision-table extraction from THIR against transcribed ISO tables + provenance rules",
+}
+
+PROPS["C01"] = {
+    "level": "other",
+    "rules": [p_macro.fld_input, p_codec.tab_codec],
+    "explanation": "(under construction - PROV-PIPE is added below)",
+    "assumptions": ["default cargo features"],
+    "technique": "table composition (decoder table o encoder table = identity) + field-writer typestate + provenance",
 }
 
 NOT_APPLICABLE = {
